@@ -37,7 +37,10 @@ pub fn gamma(z: f64) -> f64 {
             x += val / ((z - 1.) + (idx as f64) + 1.);
         }
         let t = (z - 1.) + G - 0.5;
-        ((2. * PI) as f64).sqrt() * t.powf((z - 1.) + 0.5) * (-t).exp() * x
+        // split the power in two around the exponential so that the intermediate values do
+        // not overflow before the result does
+        let half_pow = t.powf(((z - 1.) + 0.5) / 2.);
+        ((2. * PI) as f64).sqrt() * half_pow * (-t).exp() * half_pow * x
     }
 }
 
